@@ -1,5 +1,6 @@
 import LP.Driver.Scalar
 import LP.Driver.Interval
+import LP.Driver.FSI
 import Std.Data.HashMap
 open LP LP.Driver
 
@@ -17,6 +18,7 @@ def checkLine (line : String) : String × String × Verdict :=
         | "rat" => checkRat op args r
         | "qi" => checkQI "qi" op args r
         | "di" => checkQI "di" op args r
+        | "fsi" => checkFSI op args r
         | _ => Verdict.skip s!"unknown family {fam}"
       (idx, fam, v)
     | _ => ("?", "?", .skip "short line")
